@@ -172,3 +172,51 @@ package transport
 //@   assert at call CheckSecurityLevel#1 arg1 == credentials.PrivacyAndIntegrity && arg0 == riAuth(ctx)
 //@   assert at call Error#1 arg0 == codes.Unauthenticated && callCreds.RequireTransportSecurity() && (!t.isSecure || !credentials.SpecLevelOK(riAuth(ctx), credentials.PrivacyAndIntegrity))
 //@   assert at call GetRequestMetadata#1 implies(callCreds.RequireTransportSecurity(), t.isSecure && credentials.SpecLevelOK(riAuth(ctx), credentials.PrivacyAndIntegrity))
+
+// ---- C08: grpc-message percent encoding ------------------------------------------------
+
+// every byte is printable ASCII other than '%': such a message is sent verbatim
+//@ spec func allPlain(msg string) bool {
+//@   return forall(func(j int) bool { return implies(0 <= j && j < len(msg), msg[j] >= 0x20 && msg[j] <= 0x7E && msg[j] != '%') })
+//@ }
+// some '%' has at least two bytes after it: only then can decoding change the text
+//@ spec func hasEscape(msg string) bool {
+//@   return exists(func(j int) bool { return 0 <= j && j+2 < len(msg) && msg[j] == '%' })
+//@ }
+
+//@ func encodeGrpcMessageUnchecked
+//@   prop C08
+//@   pure
+
+//@ func decodeGrpcMessageUnchecked
+//@   prop C08
+//@   pure
+//@   nopanic
+//@   loop 1 invariant 0 <= i && i <= lenMsg && lenMsg == len(msg)
+
+//@ func encodeGrpcMessage
+//@   prop C08
+//@   nopanic
+//@   loop 1 invariant 0 <= i && i <= lenMsg && lenMsg == len(msg) && len(msg) > 0
+//@   loop 1 invariant forall(func(j int) bool { return implies(0 <= j && j < i, msg[j] >= 0x20 && msg[j] <= 0x7E && msg[j] != '%') })
+//@   loop 1 decreases Z(lenMsg) - Z(i)
+//@   ensures implies(allPlain(msg), result == msg)
+//@   ensures implies(!allPlain(msg), result == encodeGrpcMessageUnchecked(msg))
+
+//@ func decodeGrpcMessage
+//@   prop C08
+//@   nopanic
+//@   loop 1 invariant 0 <= i && i <= lenMsg && lenMsg == len(msg) && len(msg) > 0
+//@   loop 1 invariant forall(func(j int) bool { return implies(0 <= j && j < i, !(msg[j] == '%' && j+2 < len(msg))) })
+//@   loop 1 decreases Z(lenMsg) - Z(i)
+//@   ensures implies(!hasEscape(msg), result == msg)
+//@   ensures implies(hasEscape(msg), result == decodeGrpcMessageUnchecked(msg))
+
+// A message of plain bytes is sent verbatim and decodes to itself.
+//@ lemma plainMessageRoundTrip(m string)
+//@   prop C08
+//@   requires allPlain(m)
+//@   body e := encodeGrpcMessage(m)
+//@        d := decodeGrpcMessage(e)
+//@   ensures e == m
+//@   ensures d == m
